@@ -3,6 +3,7 @@ import itertools
 from fractions import Fraction as F
 
 from .. import alphabet as A
+from .. import core
 from .. import refmodel as R
 from .. import shapes as S
 from .. import util_knots as K
@@ -101,6 +102,20 @@ def gen_cases(tier, seed):
     for d in K.volume_shapes(tier):
         for dirs in K.nonempty_subsets(3):
             cases.append(dict(kind='e1', shape=d, dirs=dirs))
+    # parameters closer to an existing knot than the library's own multiplicity tolerance, and generated (evenly spaced) knot
+    # vectors with the parameter written as a decimal
+    near = []
+    for deg in (1, 2, 3):
+        near += [d for d in K.curve_shapes(tier) if d['degrees'] == [deg] and len(d['kvs'][0]) > 2 * (deg + 1)][:5]
+    near += [d for d in K.surface_shapes(tier) if any(len(kv) > 2 * (p + 1) for kv, p in zip(d['kvs'], d['degrees']))][:6]
+    for d in near:
+        for a in range(d['pdim']):
+            if len(d['kvs'][a]) > 2 * (d['degrees'][a] + 1):
+                cases.append(dict(kind='near_knot', shape=d, dir=a))
+    for d in (K.curve_shapes(tier)[:4] + K.surface_shapes(tier)[:2]):
+        for a in range(d['pdim']):
+            for seg in (3, 5, 7, 10):
+                cases.append(dict(kind='generated', shape=d, dir=a, segments=seg))
     # insertion into a deep copy: the copy's views grow, the original's views stay (rational shapes have view caches)
     for d in (K.curve_shapes(tier)[:8] + K.surface_shapes(tier)[:8] + K.volume_shapes(tier)[:4]):
         if d['rational']:
@@ -519,9 +534,68 @@ def _copy_views(case, ctx):
                       rc, feats)
 
 
+def _near_or_generated(case, ctx):
+    """(a) parameters a hair below / above an existing knot (closer than the library's multiplicity tolerance 1e-7);
+    (b) knot vectors produced by knotvector.generate with the insertion parameter written as the decimal k/n"""
+    from geomdl import knotvector, operations
+    from fractions import Fraction as F
+    desc = case['shape']
+    pd = desc['pdim']
+    a = case['dir']
+    p = desc['degrees'][a]
+    ctx.state(dict(d=desc, k=case['kind'], a=a), nontrivial=True)
+    if case['kind'] == 'generated':
+        seg = case['segments']
+        n = p + seg
+        kvs = [list(k) for k in desc['kvs']]
+        kvs[a] = knotvector.generate(p, n)
+        d2 = A.shape_desc(kvs, desc['degrees'], desc['rational'], desc['dim'], desc['net'], desc.get('weights', 'ones'))
+        params = [(float(k) / float(seg), None) for k in range(1, seg)] + [((k + 0.5) / seg, None) for k in range(seg)]
+    else:
+        d2 = desc
+        interior = sorted(set(k for k in desc['kvs'][a] if 0.0 < k < 1.0))
+        params = []
+        for t in interior:
+            params += [(t - 1e-9, 'below'), (t - 5e-8, 'below'), (t + 1e-9, 'above'), (t - 1e-5, 'clear'), (t + 1e-5, 'clear')]
+    for u, near in params:
+        if 'only' in case and case['only'] != [u]:
+            continue
+        obj = S.build(d2, ctx.seed)
+        model0 = R.def_from_obj(obj)
+        if sum(1 for k in model0['kvs'][a] if k == F(u)) >= p:
+            continue        # exactly on a knot of full multiplicity: not an admissible insertion
+        scale = S.max_abs(model0)
+        prm, num = [None] * pd, [0] * pd
+        prm[a], num[a] = u, 1
+        feats = dict(pdim=pd, rational=desc['rational'], degree=p, direction=K.DIRN[a], near_knot=near, family=case['kind'],
+                     segments=case.get('segments'))
+        rc = dict(case, only=[u])
+        try:
+            operations.insert_knot(obj, prm, num)
+        except Exception as e:
+            ctx.check('C04.insert.accepted', False, rc, feats, 'admissible insertion accepted', repr(e))
+            continue
+        m1 = R.def_from_obj(obj)
+        sets = [A.params_for(q, [float(x) for x in kv], per_span=(2 * q + 1) if desc['rational'] else (q + 1), extras=False)
+                for q, kv in zip(model0['degrees'], model0['kvs'])]
+        import itertools
+        ok = True
+        worst = None
+        for pr in itertools.product(*sets):
+            fp = [F(x) for x in pr]
+            e, g = R.eval_point(model0, fp), R.eval_point(m1, fp)
+            good, _ = core._close(g, e, 1e-7, scale)
+            if not good:
+                ok, worst = False, (list(pr), [float(x) for x in e], [float(x) for x in g])
+                break
+        ctx.check('C04.insert.geometry', ok, rc, feats, 'every evaluated point unchanged', worst)
+
+
 def run_case(case, ctx):
     kind = case.get('kind', 'seq')
     desc = case['shape']
+    if kind in ('near_knot', 'generated'):
+        return _near_or_generated(case, ctx)
     if kind == 'copy_views':
         return _copy_views(case, ctx)
     if kind == 'e1':
